@@ -1715,7 +1715,7 @@ func checkSearchResultsTested(w *World, r *Report) {
 			}
 		})
 	}
-	r.floor("search results used directly as bounds or indices", n, 3)
+	r.floor("search results used directly as bounds or indices", n, 1)
 }
 
 // searchFound: on every path to `use`, a branch condition says that the search whose result is v
@@ -1726,7 +1726,124 @@ func searchFound(fn *ssa.Function, v ssa.Value, use ssa.Instruction) bool {
 	sc, _ := v.(*ssa.Call)
 	// two facts: one about v (dies where v is computed anew), one about the haystack containing
 	// the needle (dies where the haystack value is computed anew)
-	return searchFoundBy(fn, v, sc, use, false) || (sc != nil && searchFoundBy(fn, v, sc, use, true))
+	return searchFoundBy(fn, v, sc, use, false) || (sc != nil && searchFoundBy(fn, v, sc, use, true)) || (sc != nil && searchGuardedAtCallers(sc))
+}
+
+// containsCallOn: is c a call strings/bytes.Contains*(hay, needle) matching the search sc when sc's
+// haystack is replaced by hay?
+func containsCallOn(c *ssa.Call, hay ssa.Value, sc *ssa.Call) bool {
+	f, g := calleeFunc(c), calleeFunc(sc)
+	if f == nil || g == nil || f.Pkg() == nil || (f.Pkg().Path() != "strings" && f.Pkg().Path() != "bytes") || !strings.HasPrefix(f.Name(), "Contains") || len(c.Call.Args) != 2 || len(sc.Call.Args) != 2 {
+		return false
+	}
+	suffix := strings.TrimPrefix(strings.TrimPrefix(g.Name(), "Last"), "Index")
+	if suffix == "Byte" {
+		suffix = "x"
+	}
+	return strings.TrimPrefix(f.Name(), "Contains") == suffix && sameValue(unspill(c.Call.Args[0]), unspill(hay)) && sameOrEqualConst(c.Call.Args[1], sc.Call.Args[1])
+}
+
+// searchGuardedAtCallers: the search looks in a parameter of an unexported helper for a constant
+// needle, and every in-package call of the helper stands behind Contains(<that argument>, <that
+// needle>) — asked directly or through a predicate of the package that answers true only when
+// Contains does (`return len(s) >= 2 && s[0] == '[' && strings.Contains(s, "]")`).
+func searchGuardedAtCallers(sc *ssa.Call) bool {
+	if len(sc.Call.Args) != 2 {
+		return false
+	}
+	if _, isConst := sc.Call.Args[1].(*ssa.Const); !isConst {
+		return false
+	}
+	p, ok := unspill(sc.Call.Args[0]).(*ssa.Parameter)
+	if !ok {
+		return false
+	}
+	cvs, ok := callerValues(p, -1)
+	if !ok || len(cvs) == 0 {
+		return false
+	}
+	// predicate g implies Contains(param k, needle)?
+	impliesContains := func(g *ssa.Function, k int) bool {
+		if g == nil || len(g.Blocks) == 0 || k >= len(g.Params) {
+			return false
+		}
+		all, any := true, false
+		instrsOf(g, func(in ssa.Instruction) {
+			ret, ok := in.(*ssa.Return)
+			if !ok {
+				return
+			}
+			res := retResults(ret)
+			if len(res) != 1 {
+				all = false
+				return
+			}
+			seen := map[ssa.Value]bool{}
+			var walk func(v ssa.Value, d int)
+			walk = func(v ssa.Value, d int) {
+				if seen[v] || d > 6 {
+					return
+				}
+				seen[v] = true
+				switch x := v.(type) {
+				case *ssa.Const:
+					if x.Value == nil || x.Value.Kind() != constant.Bool || constant.BoolVal(x.Value) {
+						all = false
+					}
+				case *ssa.Phi:
+					for _, e := range x.Edges {
+						walk(e, d+1)
+					}
+				case *ssa.Call:
+					if containsCallOn(x, g.Params[k], sc) {
+						any = true
+					} else {
+						all = false
+					}
+				default:
+					all = false
+				}
+			}
+			walk(res[0], 0)
+		})
+		return all && any
+	}
+	for _, cv := range cvs {
+		caller := cv.caller
+		fl := &boolFlow{fn: caller, entry: false}
+		arg := unspill(cv.val)
+		fl.step = func(in ssa.Instruction, st bool) bool {
+			if val, ok := in.(ssa.Value); ok && val == arg {
+				return false
+			}
+			return st
+		}
+		fl.edge = func(b *ssa.BasicBlock, i int) bool {
+			return anyEdgeFact(b, i, func(cv2 ssa.Value, trueIdx int) bool {
+				c, ok := cv2.(*ssa.Call)
+				if !ok || i != trueIdx {
+					return false
+				}
+				if containsCallOn(c, arg, sc) {
+					return true
+				}
+				if g := c.Call.StaticCallee(); g != nil && isTwigFn(g) {
+					for k, a := range c.Call.Args {
+						if sameValue(unspill(a), arg) && impliesContains(g, k) {
+							return true
+						}
+					}
+				}
+				return false
+			})
+		}
+		fl.solve()
+		site, ok := cv.site.(ssa.Instruction)
+		if !ok || !fl.at(site) {
+			return false
+		}
+	}
+	return true
 }
 
 func searchFoundBy(fn *ssa.Function, v ssa.Value, sc *ssa.Call, use ssa.Instruction, byContains bool) bool {
